@@ -41,20 +41,29 @@ class PyChild:
         return json.loads(line)
 
     def call_many(self, cmds):
-        """Pipelined: write all, then read all (the child answers in order)."""
+        """Pipelined: a writer thread feeds the commands while this thread reads the answers (the child answers in order);
+        writing everything first would dead-lock once both pipes are full."""
+        lines = []
+        for c in cmds:
+            self.n += 1
+            lines.append(json.dumps(dict(c, id=self.n)) + "\n")
+
+        def feed():
+            try:
+                for l in lines:
+                    self.p.stdin.write(l)
+                self.p.stdin.flush()
+            except Exception:
+                pass
+        t = threading.Thread(target=feed, daemon=True)
+        t.start()
         out = []
-        CH = 200
-        for i in range(0, len(cmds), CH):
-            chunk = cmds[i:i + CH]
-            for c in chunk:
-                self.n += 1
-                self.p.stdin.write(json.dumps(dict(c, id=self.n)) + "\n")
-            self.p.stdin.flush()
-            for _ in chunk:
-                line = self.p.stdout.readline()
-                if not line:
-                    raise RuntimeError("python child died: %s" % "".join(self.err)[-1500:])
-                out.append(json.loads(line))
+        for _ in lines:
+            line = self.p.stdout.readline()
+            if not line:
+                raise RuntimeError("python child died: %s" % "".join(self.err)[-1500:])
+            out.append(json.loads(line))
+        t.join()
         return out
 
     def close(self):
